@@ -166,7 +166,7 @@ Proof.
   match goal with |- context [run_prog true k now m ?who ?p ?s0] =>
     pose proof (run_prog_pm true k now m who p s0) as H; destruct (run_prog true k now m who p s0) as [s1 r] end.
   cbn [fst snd say x_w] in H. unfold tkw. destruct r; cbn [inflight] in H; cbn [on_w x_w]; try lia.
-  - rewrite pm_set_mod. unfold pm, part in *. cbn [bud ready timers nw shut set_tpanics]. lia.
+  - rewrite pm_set_mod. unfold pm, part in *. cbn [bud ready timers nw shut set_tfin]. lia.
   - rewrite pm_set_mod. unfold pm, part in *. cbn [bud ready timers nw shut set_timers].
     rewrite tmw_tins. unfold tkw. cbn [tk_rest].
     pose proof (stale_tins (now + d) {| tk_id := tk_id tk; tk_inc := tk_inc tk; tk_new := false; tk_rest := rest |} (timers (w_mod (x_w s1) m)) (nw (w_mod (x_w s1) m))).
@@ -222,7 +222,7 @@ Lemma at_sim_start_pm k c now m stage s :
   pm m (x_w (fst (at_sim_start k c now m stage s))) <= pm m (x_w s) + (if stage =? 0 then spw (c_tasks c) else 0).
 Proof.
   unfold at_sim_start. destruct (stage =? 0).
-  - pose proof (exec_pm k now m (CbStart stage) (c_tasks c) (pick_start c (inc (w_mod (x_w s) m))) s) as H.
+  - pose proof (exec_pm k now m (CbStart stage) (c_spawn c) (pick_start c (inc (w_mod (x_w s) m))) s) as H.
     destruct (exec k now m (CbStart stage) _ _ s) as [s1 p]. cbn [fst] in H.
     pose proof (catch_pm c m p (x_w s1)) as Hc. destruct (catch c m p (x_w s1)) as [w2 e2]. cbn [fst x_w] in *. lia.
   - pose proof (exec_pm k now m (CbStart stage) [] [] s) as H.
